@@ -1,3 +1,4 @@
+use super::nth_child::SerializableNthChild;
 use super::referent_rule::{GlobalRules, ReferentRuleError, RuleRegistration};
 use crate::check_var::CheckHint;
 use crate::maybe::Maybe;
@@ -139,6 +140,15 @@ fn visit_dependent_rule_ids<'a, T: DependentRule>(
   }
   if let Maybe::Present(not) = &rule.not {
     visit_dependent_rule_ids(not, sort)?;
+  }
+  // `ofRule` is tested on the siblings of a node, the node itself included:
+  // a reference cycle through it never terminates
+  if let Maybe::Present(SerializableNthChild::Complex {
+    of_rule: Some(of_rule),
+    ..
+  }) = &rule.nth_child
+  {
+    visit_dependent_rule_ids(of_rule, sort)?;
   }
   Ok(())
 }
